@@ -249,6 +249,8 @@ theorem c02_binrw_ModelFileBlock (l : Bytes) :
       via BinrwTie.Dat.modelFileBlockOf (Layout.read BinrwTie.Dat.endian BinrwDat.modelFileBlock l) :=
   BinrwTie.Dat.readModelFileBlock_eq_generated l
 
+end Physis.C02
+
 /-! ### texture entries with filler between the mip chains
 
 Every LOD record of a texture entry carries the offset of its first block, so the chains of two
